@@ -652,6 +652,10 @@ func drvCgo(r *rand.Rand, n int) [][]Action {
 		anonC := r.Intn(3) == 0
 		if anonC {
 			h = append(h, Action{A: "Anon", P: "C"})
+			if r.Intn(3) == 0 {
+				// "C" is anonymous so far; a fragment that uses it is rendered with the File before the File itself
+				h = append(h, Action{A: "Frag", Tree: fragQ("C", st.sym("C"))})
+			}
 		}
 		k := r.Intn(4)
 		for j := 0; j < k; j++ {
@@ -908,6 +912,9 @@ func drvLateAnon(r *rand.Rand, n int) [][]Action {
 		}
 		if p != "C" {
 			h = append(h, Action{A: "Anon", P: p})
+			if r.Intn(3) == 0 {
+				h = append(h, Action{A: "ImportAlias", P: p, N: []string{"renamed", "mrand", "d"}[r.Intn(3)]}) // ... and gets another name
+			}
 		}
 		h = append(h, Action{A: "Render"})
 		if r.Intn(2) == 0 {
